@@ -74,7 +74,18 @@ def check_ssh(resp):
 GHOST_MAGIC = b"Gh0st"
 
 
+def ghost_frame(rng, n=None):
+    """A well-formed Gh0st packet: magic, total size, uncompressed size (little endian), zlib stream."""
+    raw = bytes(rng.getrandbits(8) for _ in range(rng.choice([0, 1, 16, 200]) if n is None else n))
+    body = zlib.compress(raw)
+    return GHOST_MAGIC + struct.pack("<II", 13 + len(body), len(raw)) + body
+
+
 def gen_ghost(rng):
+    if rng.random() < 0.3:
+        # proper packets as the implant sends them: one, or several back to back (login + heartbeat), possibly followed by junk
+        out = b"".join(ghost_frame(rng) for _ in range(rng.choice([1, 1, 2, 2, 3, 5])))
+        return out + bytes(rng.getrandbits(8) for _ in range(rng.choice([0, 0, 0, 3, 20])))
     return GHOST_MAGIC + bytes(rng.getrandbits(8) for _ in range(rng.choice([0, 1, 8, 9, 100, 1400, rng.randrange(0, 1401), rng.randrange(0, 1401), rng.randrange(1401, 3900)])))
 
 
